@@ -55,7 +55,7 @@ type InputVal struct {
 }
 
 func NewExec(prog *ssa.Program, solver *Solver) *Exec {
-	ex := &Exec{prog: prog, solver: solver, fallbackBudget: 60 * time.Second, unwind: 12, maxSteps: 400000, maxStates: 20000,
+	ex := &Exec{prog: prog, solver: solver, fallbackBudget: 20 * time.Second, unwind: 12, maxSteps: 400000, maxStates: 20000,
 		fnSeen: map[string]bool{}, stubSeen: map[string]bool{}, boundHits: map[string]int{}}
 	ex.stubs = defaultStubs()
 	return ex
@@ -81,10 +81,15 @@ func sanitize(s string) string {
 
 // ---------- feasibility / branching ----------
 
+// noSlice disables query slicing and the verdict cache (GOSYM_NOSLICE=1: cross-check of the optimisation).
+var noSlice = os.Getenv("GOSYM_NOSLICE") != ""
+
 func (ex *Exec) feasible(st *State, extra ...*Term) string {
 	ex.stats.feas++
-	as := append(append([]*Term(nil), st.pc...), extra...)
-	return ex.solver.Check(as)
+	if noSlice {
+		return ex.solver.Check(append(append([]*Term(nil), st.pc...), extra...))
+	}
+	return ex.solver.CheckCached(st.pc, extra...)
 }
 
 // branch splits st on cond.  It returns the state for cond and the state for !cond (either may be nil
